@@ -199,10 +199,19 @@ class C19(Prop):
         if lines[-1] != b"":
             return cfg, "output does not end with a newline: %r" % lines[-1][-200:], 0
         lines.pop()
-        if len(lines) != threads * iters:
-            return cfg, "%d lines, expected %d" % (len(lines), threads * iters), len(lines)
+        literal = {"never": [b"<L>literal line</L>"], "always_ansi": [b"<L>\x1b[35mliteral line\x1b[0m</L>"]}
+        literal["mixed"] = literal["never"] + literal["always_ansi"]
+        n_lit = threads * len([i for i in range(iters) if i % 4 == 3])
+        if len(lines) != threads * iters + n_lit:
+            return cfg, "%d lines, expected %d" % (len(lines), threads * iters + n_lit), len(lines)
         nxt = [0] * threads
         for ln in lines:
+            if ln.startswith(b"<L>"):
+                # the argument-free println! / eprintln! of every fourth iteration
+                if ln not in literal[mode]:
+                    return cfg, "torn line %r" % ln[:300], len(lines)
+                n_lit -= 1
+                continue
             m = LINE_ID.match(ln)
             if not m:
                 return cfg, "torn line %r" % ln[:300], len(lines)
@@ -213,6 +222,8 @@ class C19(Prop):
             want = {"never": [True], "always_ansi": [False], "mixed": [True, False]}[mode]
             if not any(ln == expected_line(t, i, s).encode("utf-8") for s in want):
                 return cfg, "line is not a whole message of thread %d call %d: %r" % (t, i, ln[:300]), len(lines)
+        if n_lit != 0:
+            return cfg, "%d argument-free lines missing" % n_lit, len(lines)
         return cfg, None, len(lines)
 
     def extra_checks(self, ctx):
